@@ -407,8 +407,12 @@ fn handle_item(
             handle_body(body, &mut dest, scope, file_context)?;
         }
         Item::Comment(c) => {
-            if !scope.get_format().is_compressed() {
-                dest.push_comment(c.evaluate(scope)?.take_value().into());
+            // Evaluate in any style, so errors don't depend on style.
+            let compressed = scope.get_format().is_compressed();
+            let comment = c.evaluate(scope)?.take_value();
+            // Compressed output keeps only "loud" `/*! ... */` comments.
+            if !compressed || comment.starts_with('!') {
+                dest.push_comment(comment.into());
             }
         }
         Item::None => (),
